@@ -123,7 +123,7 @@ pub fn one_run(seed: u64, run: u64, pools: &Pools, deliveries: usize) -> RunOutc
             _ => false,
         };
         if framed {
-            st.distinct.insert(hash_bytes(d.n as u64 ^ ((d.target as u64) << 32), &d.bytes));
+            report::keep_distinct(&mut st, hash_bytes(d.n as u64 ^ ((d.target as u64) << 32), &d.bytes));
         }
         log.event(&format!("{} {} {} {:016x} {}", i, d.target.name(), d.n, hash_bytes(0, &d.bytes), verdicts));
         if run == 0 && i % 131 == 7 {
@@ -211,6 +211,9 @@ pub fn rerun(tier: Tier, seed: u64, run: u64) -> Option<RunOutcome> {
 
 pub fn check(tier: Tier, seed: u64) -> i32 {
     let mut rep = Report::new(PROP, tier, seed);
+    if tier == Tier::Thorough {
+        report::DISTINCT_SHIFT.store(4, std::sync::atomic::Ordering::Relaxed);
+    }
     let w = report::workers();
     let ctx = match context(tier, seed) {
         Ok(c) => c,
@@ -222,7 +225,7 @@ pub fn check(tier: Tier, seed: u64) -> i32 {
     corpus(&mut rep);
     let out = report::parallel_runs(ctx.runs, w, |run| one_run(seed, run, &ctx.pools, ctx.per_run));
     rep.absorb(out);
-    rep.rule = "a case is one byte string delivered to PublicKey/SecretKey/Signature::from_bytes of either variant, produced by the seeded channel/disk fault catalogue (bit flips incl. header bits, overwrites, truncation/extension, splices, torn writes, misdelivery across variants and object types) or the Byzantine key encoder Z3 from pristine encodings; non-trivial = right length and header for the receiving decoder, so that the verdict is decided at field level; distinct = distinct delivered bytes".into();
+    rep.rule = "a case is one byte string delivered to PublicKey/SecretKey/Signature::from_bytes of either variant, produced by the seeded channel/disk fault catalogue (bit flips incl. header bits, overwrites, truncation/extension, splices, torn writes, misdelivery across variants and object types) or the Byzantine key encoder Z3 from pristine encodings; non-trivial = right length and header for the receiving decoder, so that the verdict is decided at field level; distinct = distinct delivered bytes".to_string() + &report::distinct_rule_suffix();
     rep.assumptions = vec![
         "the strict reference decoders (sim/src/reference/codec.rs) encode the formats of specification sections 3.11.2/3.11.3/3.11.5 with this library's signature header label".into(),
         "a delivery on which the node unwinds is not judged here (C03 reports it)".into(),
